@@ -84,8 +84,8 @@ def shard_fn(sh):
                     continue
                 touched = False
                 for si, ws in enumerate(doc_words):
-                    if [id(t) for t in rd[si]] != tok_ids[si] or [t.word for t in rd[si]] != list(ws):
-                        st.violation('tokens', f'sentence {si}: token order/identity changed', **base)
+                    if [t.word for t in rd[si]] != list(ws):      # order and content; whether the very same objects come back is not claimed
+                        st.violation('tokens', f'sentence {si}: token order changed', **base)
                     tag, dep = rs[si]
                     if not np.array_equal(dep, orig[si][1]):
                         st.violation('dep_scores', f'sentence {si}: dependency scores were modified', **base)
@@ -107,21 +107,29 @@ def shard_fn(sh):
 
 
 WIDE_NCAT = 16
+WIDE_TIER = ['quick']       # thorough: 24 categories
+
+
+def wide_n():
+    return WIDE_NCAT if WIDE_TIER[0] == 'quick' else 24
 
 
 def wide_sets():
-    s1 = [s for r in (1, 2, 3) for s in itertools.combinations(range(WIDE_NCAT), r)]
-    s2 = [s for r in (1, 2) for s in itertools.combinations(range(WIDE_NCAT), r)]
+    s1 = [s for r in (1, 2, 3) for s in itertools.combinations(range(wide_n()), r)]
+    s2 = [s for r in (1, 2) for s in itertools.combinations(range(wide_n()), r)]
     return s1, s2
 
 
 def wide_shard(sh):
     """an inventory with two-digit positions: 16 shipped categories, the document [a b a][b c], every dictionary {a: s1, b: s2} with
     |s1| <= 3 and |s2| <= 2 (all position sets, among them those whose digit strings coincide such as (1,2,13) and (12,13))"""
-    lo, hi = sh
+    lo, hi = sh[:2]
+    if len(sh) > 2:
+        WIDE_TIER[0] = sh[2]
+    NC = wide_n()
     parsing = model()
     st = core.Stats()
-    cats = data.targets('en')[:WIDE_NCAT]
+    cats = data.targets('en')[:NC]
     s1s, s2s = wide_sets()
     doc_words = (('a', 'b', 'a'), ('b', 'c'))
     for s1 in s1s[lo:hi]:
@@ -131,9 +139,9 @@ def wide_shard(sh):
             st.count('cases')
             st.count('wide_cases')
             st.count('nontrivial')
-            docs, srs = make_case(doc_words, WIDE_NCAT, 0)
+            docs, srs = make_case(doc_words, NC, 0)
             orig = [(t.copy(), d.copy()) for t, d in srs]
-            base = dict(doc=[list(s) for s in doc_words], dictionary={w: [str(c) for c in v] for w, v in cdict.items()}, form='list', ncat=WIDE_NCAT, engine='c17_wide', sets=[list(s1), list(s2)])
+            base = dict(doc=[list(s) for s in doc_words], dictionary={w: [str(c) for c in v] for w, v in cdict.items()}, form='list', ncat=NC, engine='c17_wide', sets=[list(s1), list(s2)])
             try:
                 rd, rs = parsing.apply_category_filters(docs, srs, list(cats), dict(cdict))
             except Exception as e:
@@ -146,7 +154,7 @@ def wide_shard(sh):
                 exp = orig[si][0].copy()
                 for i, w in enumerate(ws):
                     if w in dct:
-                        for j in range(WIDE_NCAT):
+                        for j in range(NC):
                             if j not in dct[w]:
                                 exp[i, j] = np.float32(LNV)
                 if tag.shape != exp.shape or not np.array_equal(tag, exp):
@@ -267,8 +275,9 @@ def check(tier, seed):
         for lo in range(0, nd, 6):
             shards.append((ncat, lo, min(nd, lo + 6)))
     st = core.pmap(shard_fn, core.rotate(shards, seed))
+    WIDE_TIER[0] = tier
     n1 = len(wide_sets()[0])
-    st.merge(core.pmap(wide_shard, [(lo, min(n1, lo + 24)) for lo in range(0, n1, 24)]))
+    st.merge(core.pmap(wide_shard, [(lo, min(n1, lo + 24), tier) for lo in range(0, n1, 24)]))
     ns = len(SPECIAL) ** 3
     st.merge(core.pmap(special_shard, [(lo, min(ns, lo + 32)) for lo in range(0, ns, 32)]))
     data_part(st)
@@ -307,7 +316,10 @@ def replay(rec):
     if rec.get('engine') == 'c17_wide':
         s1s, _ = wide_sets()
         k = s1s.index(tuple(rec['sets'][0]))
-        st = wide_shard((k, k + 1))
+        WIDE_TIER[0] = 'quick' if rec.get('ncat', 16) == 16 else 'thorough'
+        s1s, _ = wide_sets()
+        k = s1s.index(tuple(rec['sets'][0]))
+        st = wide_shard((k, k + 1, WIDE_TIER[0]))
         for kk, v in st.viol.items():
             print('REPRODUCED', kk, v[0]['what'])
         return 1 if st.viol else 0
